@@ -1018,3 +1018,56 @@ Proof.
   split; [apply reach_run; [exact ax_reach|cbn [repeat]; wf_run_tac]|].
   vm_compute. repeat split; auto.
 Qed.
+
+(* ------------------------------------------------------------------ *)
+(* every step of a reachable state, as one statement (what a monitor observes): if the
+   balance of an ordinary account falls in a step, then either the step is a successful
+   message signed by that account, sent rightfully, that pays a deposit or sends coins; or it
+   is an EndBlock and the account is the consumer of a running, non-super context whose
+   new batch is due *)
+
+Lemma msg_debit_signer cfg s o s' a :
+  (forall dt, o <> OEndBlock dt) -> handle cfg s o = Ok s' ->
+  bal s' (User a) < bal s (User a) -> signer o = Some a /\ 0 < max_debit o.
+Proof.
+  intros Hne H Hlt. destruct (msg_floor _ _ _ _ H Hne) as [_ Hf]. specialize (Hf a).
+  unfold debit_of in Hf. destruct (signer o) as [u|]; [|lia].
+  destruct (Z.eqb_spec a u) as [->|_]; [split; [reflexivity|lia]|lia].
+Qed.
+
+Definition endblock_payer (s : State) (a : Z) : Prop :=
+  exists c rc, get c (ctxs s) = Some rc /\ c_cons rc = a /\ c_state rc = Running
+    /\ c_super rc = false
+    /\ (In (height s, c) (newq s)
+        \/ (In (height s, c) (expq s) /\ c_rep rc = true /\ c_freq rc = c_timeout rc)).
+
+Theorem C05_step_debits cfg s o a :
+  wf_cfg cfg -> Reach cfg s -> wf_op s o ->
+  bal (fst (step cfg s o)) (User a) < bal s (User a) ->
+  (signer o = Some a /\ rightful cfg s o /\ 0 < max_debit o /\ snd (step cfg s o) = ROk
+   /\ bal s (User a) - max_debit o <= bal (fst (step cfg s o)) (User a))
+  \/ ((exists dt, o = OEndBlock dt) /\ endblock_payer s a).
+Proof.
+  intros Hcfg Hr Hwf. pose proof (Reach_Inv cfg s Hcfg Hr) as HI.
+  unfold step. destruct (handle cfg s o) as [s'| |] eqn:E; cbn [fst snd]; intros Hlt; try lia.
+  assert (Hmsg : (forall dt, o <> OEndBlock dt) ->
+    signer o = Some a /\ rightful cfg s o /\ 0 < max_debit o /\ ROk = ROk
+    /\ bal s (User a) - max_debit o <= bal s' (User a)).
+  { intros Hne. destruct (msg_debit_signer _ _ _ _ a Hne E Hlt) as [Hs Hm].
+    split; [exact Hs|]. split; [eapply C05_authority; eauto|]. split; [exact Hm|].
+    split; [reflexivity|]. eapply C05_signer_debit_bound; eauto. }
+  destruct o; try (left; apply Hmsg; intros; discriminate).
+  right. split; [eauto|]. cbn [handle] in E. injection E as <-. cbn [wf_op] in Hwf.
+  destruct Hwf as [_ Hb]. eapply C05_endblock_debits; eauto.
+Qed.
+
+Example C05_step_debits_ex :
+  Reach ax_cfg ax_s_pre /\ wf_op ax_s_pre (OEndBlock 5)
+  /\ bal (fst (step ax_cfg ax_s_pre (OEndBlock 5))) (User 50) < bal ax_s_pre (User 50)
+  /\ Reach ax_cfg ax_s /\ wf_op ax_s (OTransfer 50 51 7)
+  /\ bal (fst (step ax_cfg ax_s (OTransfer 50 51 7))) (User 50) < bal ax_s (User 50).
+Proof.
+  split; [exact ax_pre_reach|]. split; [cbn [wf_op]; vm_compute; split; [discriminate|reflexivity]|].
+  split; [vm_compute; reflexivity|]. split; [exact ax_reach|]. split; [exact I|].
+  vm_compute. reflexivity.
+Qed.
